@@ -46,9 +46,12 @@ def main():
             sv = ""
             if suite:
                 e2 = dict(os.environ, OMP_NUM_THREADS="1", PYTHONPATH=os.path.join(tmp, "src"))
-                r2 = subprocess.run(["/venv/bin/python", "-m", "pytest", "-q", "-x", "-p", "no:cacheprovider", "tests"],
+                r2 = subprocess.run(["/venv/bin/python", "-m", "pytest", "-q", "-rf", "-p", "no:cacheprovider", "tests"],
                                     cwd=tmp, env=e2, capture_output=True, text=True)
-                sv = "suite:" + ("survives" if r2.returncode == 0 else "killed")
+                # three tests of test_sample_simple_cur.py need the network and fail on the unchanged tree too
+                failed = [l.split()[1] for l in r2.stdout.splitlines() if l.startswith(("FAILED", "ERROR"))]
+                failed = [f for f in failed if not f.startswith("tests/test_sample_simple_cur.py::TestCUR::")]
+                sv = "suite:" + ("survives" if not failed else "killed(%d)" % len(failed))
             out.append((name, verdict, round(time.time() - t, 1), sv, first[0].strip()[:150] if first else ""))
             print(out[-1], flush=True)
             if r.returncode == 2:
